@@ -419,7 +419,9 @@ def run_case(case, rec, mon=None):
             comp = None
         if comp is not None and width <= 512:
             mod = T.PyTorchSIFrameComputer.from_si_frame_computer(comp)
-            for N in (0, 1, comp.frame_length, width + 3, 2 * width + 1):
+            fl_, fs_ = int(comp.frame_length), int(comp.frame_shift)
+            # (also lengths between half a shift and half the - very long - frame: the short-integration computer frames those too)
+            for N in sorted({0, 1, fs_ // 2, fs_, fs_ + 1, max(1, fl_ // 2 - 1), fl_ // 2, fl_ // 2 + 1, fl_, width + 3, 2 * width + 1}):
                 for dt in (torch.float32, torch.float64):
                     x = _tview(rng, torch.from_numpy(gen.signal(rng, N, None)).to(dt))
                     try:
